@@ -280,6 +280,11 @@ impl Env {
         let core = core.clone();
         Observable::create(move |s: Observer<'static, V>| {
           let _t = &tok;
+          if !s.is_subscribed() {
+            // a subscription made on behalf of an observer that has already ended is
+            // invisible (not counted, not probed), on both sides of every comparison
+            return;
+          }
           let (pid, _) = stats.new_probe(sid, &s);
           if !core.dead.load(Ordering::SeqCst) {
             lk(&core.subs).push((pid, s));
@@ -297,7 +302,9 @@ impl Env {
         // same shape as observables::defer: count, then subscribe the observer itself
         Observable::create(move |s: Observer<'static, V>| {
           let _t = &tok;
-          stats.next_sub_no(sid);
+          if s.is_subscribed() {
+            stats.next_sub_no(sid);
+          }
           inner.inner_subscribe(s);
         })
       }
@@ -310,6 +317,9 @@ impl Env {
     let tok = CTok::new(&self.ctx);
     Observable::create(move |s: Observer<'static, V>| {
       let _t = &tok;
+      if !s.is_subscribed() {
+        return;
+      }
       let (pid, k) = stats.new_probe(sid, &s);
       let script = &scripts[k.min(scripts.len() - 1)];
       for ev in script {
@@ -622,14 +632,14 @@ impl Env {
         })
       }
       Node::Defer(did, inner) => {
-        let env = self.clone();
-        let inner = (**inner).clone();
+        let stats = self.stats.clone();
+        let o = self.build(inner);
         let did = *did;
         observables::defer(move || {
           let _t = &tok;
           arx_rt::burn(1);
-          env.stats.factory_call(did);
-          env.build(&inner)
+          stats.factory_call(did);
+          o.clone()
         })
       }
       Node::ReadySetGo(i, script, inner) => {
